@@ -563,6 +563,74 @@ def r6_isa_not_subsplit(ctx):
     yield Ob('segment:Segment.set special case addresses ISA16', ok, ctx.floc(fn), '' if ok else 'no `ele_idx == 15` test')
 
 
+def r8_format_keeps_values(ctx):
+    """formatting writes every value the segment holds: Segment.format and Composite.format, decided by constant propagation
+    on segments / composites whose positions are empty, blank or filled, print all positions up to the last one that is
+    not EMPTY ('' - a blank is a value), always at least the first, in order, joined by the separator.  Reading the text
+    again then yields the same values."""
+    from ..absint import run_function, helper_oracles, NotClosedTest
+    hfuncs = helper_oracles(ctx, 'segment', {'Element.__repr__': lambda x: x.v})
+
+    class _C(object):
+        _sa_model = True
+
+        def __init__(self, v):
+            self.v = self.value = v
+
+        def format(self, st=None):
+            return self.v
+
+        def __repr__(self):
+            return self.v
+
+        def get_value(self):
+            return self.v
+
+        def is_empty(self):
+            return self.v == ''
+
+        def __hash__(self):
+            return hash(('c', self.v, id(self)))
+
+    def expected(vals, sep):
+        i = 0
+        for j in range(len(vals) - 1, -1, -1):
+            if vals[j] != '':
+                i = j
+                break
+        return sep.join(vals[:i + 1])
+    CASES = (('A', 'B'), ('A', '', ''), ('A', ' '), ('A', '  ', ''), ('', ''), (), ('', 'B', ''), ('A', '', 'C', ' ', ''), (' ',), ('A', '', ' '))
+    fn = ctx.func('segment', 'Segment.format')
+    bad = []
+    for vals in CASES:
+        env = {'self.seg_id': 'REF', 'self.seg_term': '~', 'self.ele_term': '*', 'self.subele_term': ':',
+               'self.elements': tuple(_C(v) for v in vals)}
+        try:
+            got = run_function(ctx.cfg(fn), fn, [None], hfuncs, env=env)
+        except (NotClosedTest, A.NotClosed) as e:
+            raise AnalysisError('Segment.format cannot be decided for the element values %s: %s' % (list(vals), e))
+        want = 'REF*' + expected(list(vals), '*') + '~'
+        if got != want:
+            bad.append('elements %s are written as %r, not %r' % (list(vals), got, want))
+    yield Ob('segment:Segment.format writes every element up to the last non-empty one', not bad, ctx.floc(fn),
+             '' if not bad else bad[0] + ': a value is lost (or an empty position invented) when the segment is written')
+    fn = ctx.func('segment', 'Composite.format')
+    bad = []
+    for vals in CASES:
+        if not vals:
+            continue      # (a composite always has at least one component)
+        env = {'self.subele_term': ':', 'self.elements': tuple(_C(v) for v in vals)}
+        try:
+            got = run_function(ctx.cfg(fn), fn, [None], hfuncs, env=env)
+        except (NotClosedTest, A.NotClosed) as e:
+            raise AnalysisError('Composite.format cannot be decided for the component values %s: %s' % (list(vals), e))
+        want = expected(list(vals), ':')
+        if got != want:
+            bad.append('components %s are written as %r, not %r' % (list(vals), got, want))
+    yield Ob('segment:Composite.format writes every component up to the last non-empty one', not bad, ctx.floc(fn),
+             '' if not bad else bad[0] + ': a value is lost (or an empty position invented) when the composite is written')
+
+
 def r7_format_delimiters(ctx):
     """formatting puts each delimiter where parsing looks for it: the text returned by Segment.format is
     id + element separator + elements joined by the element separator + terminator, every element formatted with the
@@ -633,5 +701,6 @@ RULES = [
     Rule('C01.R4', 'Segment delimiters come from the header; get_term tuple positions agree', r4_delimiter_provenance, floor=9),
     Rule('C01.R5', 'strip set in front of a token is exactly {CR, LF}; leading blank reported', r5_strip_set, floor=1),
     Rule('C01.R6', 'ISA elements are never split at the component separator', r6_isa_not_subsplit, floor=2),
+    Rule('C01.R8', 'Segment.format / Composite.format print every position up to the last non-empty one (blank is a value)', r8_format_keeps_values, floor=2),
     Rule('C01.R7', 'format puts each delimiter where the parser looks for it; defaults are the segment own delimiters', r7_format_delimiters, floor=5),
 ]
